@@ -4,7 +4,8 @@
 //!   schedule       ccfg file programs sched -> one field per thread (answers; "!" = call still open)
 //!   stress         file programs rounds     -> one field per thread (answers of the last round), real SyncCache
 //!   tschedule / tstress: the same with typed programs (one row `ty r ty r …` per thread; in `schedule` and
-//!                  `stress` a row is a list of references, each loaded as Node<0>)
+//!                  `stress` a row is a list of references, each loaded as Node<0>); an item `9 i` loads the
+//!                  lazy cell i of the holder object whose number is the optional last field (Lazy::load)
 //!
 //! The test documents contain objects of the harness-defined types Node<0>, Node<1>, Node<2>
 //! (`<< /V int /F flags /E0 mask /E1 mask /D [ty ref ty ref …] >>`, modelled by coq/theories/Cache/Node.v)
@@ -110,6 +111,50 @@ impl<const TAG: u8> Object for Node<TAG> {
 }
 
 // ------------------------------------------------------------------------------------------------
+// a holder of lazily loaded references: `<< /L [ty ref ty ref …] >>`; cell i is a `Lazy<Node<ty_i>>` (as the
+// fonts / annotations of a page are).  One Holder value is shared by all threads of a schedule: a program item
+// `9 i` is `holder.cells[i].load(resolver)` (object/mod.rs Lazy::load: a once-cell filled by the first load).
+
+pub enum LazyNode { N0(Lazy<Node<0>>), N1(Lazy<Node<1>>), N2(Lazy<Node<2>>) }
+pub struct Holder { pub cells: Vec<LazyNode> }
+const LAZY_ITEM: i32 = 9;
+impl Holder {
+    fn from_primitive(p: Primitive, resolve: &impl Resolve) -> PResult<Self> {
+        let d: Dictionary = p.resolve(resolve)?.into_dictionary()?;
+        let mut cells = vec![];
+        if let Some(Primitive::Array(a)) = d.get("L") {
+            for pair in a.chunks(2) {
+                if pair.len() < 2 { break; }
+                let prim = pair[1].clone();
+                cells.push(match pair[0].as_integer().unwrap_or(0) {
+                    0 => LazyNode::N0(Lazy::from_primitive(prim, resolve)?),
+                    1 => LazyNode::N1(Lazy::from_primitive(prim, resolve)?),
+                    _ => LazyNode::N2(Lazy::from_primitive(prim, resolve)?),
+                });
+            }
+        }
+        Ok(Holder { cells })
+    }
+    fn load(&self, i: u64, resolve: &impl Resolve) -> PResult<u128> {
+        match self.cells.get(i as usize) {
+            Some(LazyNode::N0(l)) => l.load(resolve).map(|n| n.digest),
+            Some(LazyNode::N1(l)) => l.load(resolve).map(|n| n.digest),
+            Some(LazyNode::N2(l)) => l.load(resolve).map(|n| n.digest),
+            None => Err(PdfError::Other { msg: "no such lazy cell".into() }),
+        }
+    }
+}
+/// the holder of a test document: the object whose number is given (0 = the document has none)
+fn holder_of(id: u64, resolve: &impl Resolve) -> PResult<Arc<Holder>> {
+    if id == 0 { return Ok(Arc::new(Holder { cells: vec![] })); }
+    let p = resolve.resolve(PlainRef { id, gen: 0 })?;
+    Ok(Arc::new(Holder::from_primitive(p, resolve)?))
+}
+fn run_item(ty: i32, id: u64, holder: &Holder, resolve: &impl Resolve) -> PResult<u128> {
+    if ty == LAZY_ITEM { holder.load(id, resolve) } else { get_node(ty, PlainRef { id, gen: 0 }, resolve) }
+}
+
+// ------------------------------------------------------------------------------------------------
 // cache_history
 
 fn nums(b: &[u8]) -> Vec<Vec<i128>> {
@@ -203,11 +248,25 @@ where OC: Cache<PResult<AnySync, Arc<PdfError>>>, SC: Cache<PResult<Arc<[u8]>, A
 // turnstile scheduler + instrumented cache (mirrors globalcache-0.2.4 sync::SyncCache::get)
 
 #[derive(Clone, Copy, PartialEq, Debug)]
-enum TStat { Running, Parked, Blocked(PlainRef), Done }
-struct SState { turn: Option<usize>, status: Vec<TStat>, abort: bool }
+enum TStat { Running, Parked, Blocked(PlainRef), OsBlocked, Done }
+struct SState { turn: Option<usize>, status: Vec<TStat>, abort: bool, tids: Vec<u64> }
 struct Sched { st: Mutex<SState>, cv: Condvar }
 thread_local! { static ME: Cell<Option<usize>> = Cell::new(None); }
 static CURRENT: Mutex<Option<Arc<Sched>>> = Mutex::new(None);
+
+/// kernel thread id of the calling thread (`/proc/thread-self` -> `<pid>/task/<tid>`)
+fn own_tid() -> u64 {
+    std::fs::read_link("/proc/thread-self").ok()
+        .and_then(|p| p.file_name().and_then(|n| n.to_str()).and_then(|n| n.parse().ok())).unwrap_or(0)
+}
+/// is the thread asleep in the kernel (state S: waiting on a futex — a lock or a once-cell another thread holds)?
+fn os_sleeping(tid: u64) -> bool {
+    if tid == 0 { return false; }
+    match std::fs::read_to_string(format!("/proc/self/task/{}/stat", tid)) {
+        Ok(s) => s.rfind(')').and_then(|i| s[i + 1..].trim_start().chars().next()) == Some('S'),
+        Err(_) => false,
+    }
+}
 
 impl Sched {
     /// called by a worker: hand the turn back and wait to be released again; false = the run was aborted
@@ -215,7 +274,8 @@ impl Sched {
         let mut g = self.st.lock().unwrap();
         if g.abort { return false; }
         g.status[t] = stat;
-        g.turn = None;
+        // (a thread that was set aside as OsBlocked does not hold the turn when it comes back)
+        if g.turn == Some(t) { g.turn = None; }
         self.cv.notify_all();
         while g.turn != Some(t) {
             if g.abort { return false; }
@@ -230,16 +290,63 @@ impl Sched {
         if g.turn == Some(t) { g.turn = None; }
         self.cv.notify_all();
     }
+    /// controller: wait until the thread that holds the turn reaches its next yield point, ends, or blocks in
+    /// the kernel on something a parked thread holds (the lock of a once-cell that is being initialised:
+    /// object/mod.rs Lazy::load -> OnceCell::get_or_try_init).  Such a thread is set aside as OsBlocked: it is
+    /// not enabled until it wakes up, and it parks itself at its next yield point.
+    fn await_turn_end(&self, t: usize) {
+        let mut asleep = 0;
+        loop {
+            {
+                let g = self.st.lock().unwrap();
+                if g.turn != Some(t) { return; }
+                let (g, _) = self.cv.wait_timeout(g, std::time::Duration::from_micros(300)).unwrap();
+                if g.turn != Some(t) { return; }
+                if g.status[t] != TStat::Running { asleep = 0; continue; }
+            }
+            // the lock is not held while the thread's state is sampled (it may be waiting for this very lock)
+            let tid = self.st.lock().unwrap().tids[t];
+            if os_sleeping(tid) { asleep += 1; } else { asleep = 0; }
+            if asleep >= 4 {
+                let mut g = self.st.lock().unwrap();
+                if g.turn == Some(t) && g.status[t] == TStat::Running && os_sleeping(tid) {
+                    g.status[t] = TStat::OsBlocked;
+                    g.turn = None;
+                    return;
+                }
+                asleep = 0;
+            }
+        }
+    }
+    /// controller: threads set aside as OsBlocked that have been woken meanwhile run on to their next yield
+    /// point (or to their end) before anything else is scheduled
+    fn settle(&self) {
+        loop {
+            let blocked: Vec<(usize, u64)> = {
+                let g = self.st.lock().unwrap();
+                (0..g.status.len()).filter(|&t| g.status[t] == TStat::OsBlocked).map(|t| (t, g.tids[t])).collect()
+            };
+            let mut awake = false;
+            for (t, tid) in blocked {
+                let mut asleep = 0;
+                for _ in 0..200000 {
+                    if self.st.lock().unwrap().status[t] != TStat::OsBlocked { awake = true; break; }
+                    if os_sleeping(tid) { asleep += 1; if asleep >= 4 { break; } } else { asleep = 0; }
+                    std::thread::sleep(std::time::Duration::from_micros(100));
+                }
+            }
+            if !awake { return; }
+        }
+    }
     /// controller: let t run up to its next yield point
     fn release(&self, t: usize) {
-        let mut g = self.st.lock().unwrap();
-        g.turn = Some(t);
-        self.cv.notify_all();
-        while g.turn.is_some() { g = self.cv.wait(g).unwrap(); }
-    }
-    fn wait_idle(&self) {
-        let mut g = self.st.lock().unwrap();
-        while g.turn.is_some() { g = self.cv.wait(g).unwrap(); }
+        {
+            let mut g = self.st.lock().unwrap();
+            g.turn = Some(t);
+            self.cv.notify_all();
+        }
+        self.await_turn_end(t);
+        self.settle();
     }
     fn abort(&self) {
         let mut g = self.st.lock().unwrap();
@@ -315,18 +422,20 @@ fn schedule(f: &[Vec<u8>], typed: bool) -> R {
     let tc = TurnRef(TurnCache::new());
     if cache_on {
         let file = match FileOptions::uncached().cache(tc.clone(), NoCache).load(f[1].clone()) { Ok(x) => x, Err(e) => return Err(ekind(&e)) };
-        run_threads(&file, shared, &progs, &sched, Some(&tc))
+        run_threads(&file, shared, &progs, &sched, Some(&tc), dec(fld(f, 4)).max(0) as u64)
     } else {
         let file = match FileOptions::uncached().load(f[1].clone()) { Ok(x) => x, Err(e) => return Err(ekind(&e)) };
-        run_threads(&file, shared, &progs, &sched, None)
+        run_threads(&file, shared, &progs, &sched, None, dec(fld(f, 4)).max(0) as u64)
     }
 }
 
 fn run_threads<OC>(file: &pdf::file::File<Vec<u8>, OC, NoCache, pdf::file::NoLog>, shared: bool, progs: &[Vec<(i32, u64)>], sched: &[usize],
-                   tc: Option<&TurnRef>) -> R
+                   tc: Option<&TurnRef>, holder_id: u64) -> R
 where OC: Cache<PResult<AnySync, Arc<PdfError>>> + Sync {
     let n = progs.len();
-    let s = Arc::new(Sched { st: Mutex::new(SState { turn: None, status: vec![TStat::Running; n], abort: false }), cv: Condvar::new() });
+    let s = Arc::new(Sched { st: Mutex::new(SState { turn: None, status: vec![TStat::Running; n], abort: false, tids: vec![0; n] }), cv: Condvar::new() });
+    // the holder of the lazy cells is built once, before the threads exist, and shared by all of them
+    let holder = match holder_of(holder_id, &file.resolver()) { Ok(h) => h, Err(e) => return Err(ekind(&e)) };
     *CURRENT.lock().unwrap() = Some(s.clone());
     verif_hooks::set_callback(Some(Arc::new(|_site, _key, _ty| yield_here())));
     let answers: Vec<Mutex<Vec<String>>> = (0..n).map(|_| Mutex::new(vec![])).collect();
@@ -336,22 +445,23 @@ where OC: Cache<PResult<AnySync, Arc<PdfError>>> + Sync {
         for t in 0..n {
             // start thread t and let it run to its first yield point (or to its end)
             { let mut g = s.st.lock().unwrap(); g.turn = Some(t); }
-            let (s2, answers, progs, shared_resolver) = (s.clone(), &answers, progs, &shared_resolver);
+            let (s2, answers, progs, shared_resolver, holder) = (s.clone(), &answers, progs, &shared_resolver, &holder);
             scope.spawn(move || {
                 ME.with(|m| m.set(Some(t)));
+                s2.st.lock().unwrap().tids[t] = own_tid();
                 let own = file.resolver();
                 for &(ty, id) in &progs[t] {
                     if s2.st.lock().unwrap().abort { break; }
-                    let r = PlainRef { id, gen: 0 };
                     let res = catch_unwind(AssertUnwindSafe(|| {
-                        if shared { get_node(ty, r, shared_resolver) } else { get_node(ty, r, &own) }
+                        if shared { run_item(ty, id, holder, shared_resolver) } else { run_item(ty, id, holder, &own) }
                     }));
                     let a = match res { Ok(Ok(d)) => format!("o{}", d), Ok(Err(e)) => format!("e{}", kind_code(&e)), Err(_) => "p".into() };
                     answers[t].lock().unwrap().push(a);
                 }
                 s2.done(t);
             });
-            s.wait_idle();
+            s.await_turn_end(t);
+            s.settle();
         }
         let enabled = |t: usize| -> bool {
             let st = s.st.lock().unwrap().status[t];
@@ -397,14 +507,15 @@ fn stress(f: &[Vec<u8>], typed: bool) -> R {
     for _ in 0..rounds {
         let file = match FileOptions::cached().load(f[0].clone()) { Ok(x) => x, Err(e) => return Err(ekind(&e)) };
         let resolver = file.resolver();
+        let holder = match holder_of(dec(fld(f, 3)).max(0) as u64, &resolver) { Ok(h) => h, Err(e) => return Err(ekind(&e)) };
         let barrier = std::sync::Barrier::new(progs.len());
         let out: Vec<Vec<String>> = std::thread::scope(|scope| {
             let hs: Vec<_> = progs.iter().map(|p| {
-                let (resolver, barrier) = (&resolver, &barrier);
+                let (resolver, barrier, holder) = (&resolver, &barrier, &holder);
                 scope.spawn(move || {
                     barrier.wait();
                     p.iter().map(|&(ty, id)| {
-                        match catch_unwind(AssertUnwindSafe(|| get_node(ty, PlainRef { id, gen: 0 }, resolver))) {
+                        match catch_unwind(AssertUnwindSafe(|| run_item(ty, id, holder, resolver))) {
                             Ok(Ok(d)) => format!("o{}", d), Ok(Err(e)) => format!("e{}", kind_code(&e)), Err(_) => "p".into() }
                     }).collect::<Vec<String>>()
                 })
